@@ -31,6 +31,10 @@ class OperandToScale(IntEnum):
 def quantise_scale(scale):
     significand, exponent = math.frexp(scale)
     significand_q31 = int(round_away_zero(significand * (1 << 31)))
+    if significand_q31 == (1 << 31):
+        # The significand rounded up to 1.0: renormalise (as the reference does) so that the multiplier fits 31 bits
+        significand_q31 //= 2
+        exponent += 1
     exponent_q31 = exponent - 31
     shift = exponent_q31 * -1
 
